@@ -183,11 +183,26 @@ def final_uses(rep, w, li, G, bestk_name, k, first_after=None):
            f"found {len(finals)} build call(s) after the loop", line=li.line)
 
 
+def _report_truthy(rep, w) -> bool:
+    """The best value so far starts as None and "no candidate yet" is tested by truthiness: a best value of exactly 0 is
+    falsy too, so it is replaced by any later candidate (ir.settle_optional_minima records the site)."""
+    hits = getattr(w, "truthy_optional", None)
+    if not hits:
+        return False
+    v, lid, e0 = hits[0]
+    rep.ev("BEST-none-test", e0, False,
+           f"'{v}' starts as None and 'nothing selected yet' is tested by truthiness (`not {v} or ...`): a best value of exactly 0 "
+           "counts as nothing selected, so a later candidate that is no better replaces the incumbent k")
+    return True
+
+
 def check_knn(chk, rep, repo):
     w = model_walk(repo, "KNNSupervisedOPF", "fit")
     G = ("attr", ("self",), "subgraph")
     loops = loop_of(w, "_learn")
     if not loops and (report_detached(rep, w, "_learn") or report_argmin_form(rep, w, "_learn")):
+        return 1
+    if not loops and _report_truthy(rep, w):
         return 1
     if len(loops) != 1:
         raise AnalysisError(f"KNNSupervisedOPF._learn: expected one selection loop, found {len(loops)}")
@@ -221,6 +236,8 @@ def check_knn(chk, rep, repo):
     # sentinel
     s = bs.init
     neg = s[0] == "const" and isinstance(s[1], (int, float)) and not isinstance(s[1], bool) and s[1] < 0
+    from ..ir import is_neg_float_max
+    neg = neg or is_neg_float_max(s)  # (also what a start of None, "nothing yet", amounts to: every accuracy beats it)
     pre = binit == ("const", 1)
     rep.fn("BEST-sentinel", fn, f"{bs.best} starts at {show(s)}; {bname} starts at {show(binit)}", neg or pre,
            "opf_accuracy ranges over [0, 1]: a start value of 0 (or more) is attainable, and with the strict test no "
@@ -249,6 +266,8 @@ def check_uns(chk, rep, repo):
     G = ("attr", ("self",), "subgraph")
     loops = loop_of(w, "_best_minimum_cut")
     if not loops and (report_detached(rep, w, "_best_minimum_cut") or report_argmin_form(rep, w, "_best_minimum_cut")):
+        return 1
+    if not loops and _report_truthy(rep, w):
         return 1
     if len(loops) != 1:
         raise AnalysisError(f"UnsupervisedOPF._best_minimum_cut: expected one selection loop, found {len(loops)}")
